@@ -4,18 +4,9 @@ from values import pval_j
 
 LEVEL = "proof"
 MODULE = "Phil.Props.C11"
-LEVEL_TEXT = ("Lean theorems about the choice model (choice_converters.fetch / from_words), for all alternative lists distinct up "
-              "to case and all source word lists: the result lists exactly the master's alternatives in order with their "
-              "quoting; the starred set is the requested set under the three spellings (stars, single bare word, a+b+c), last "
-              "occurrence deciding; an unknown selected name raises Sorry carrying all alternatives; extraction returns at most "
-              "one name (single) and never none/empty when .optional=False. The model is tied to /repo by a correspondence "
-              "run of fetch+extract on one choice definition and, for merges with several matching sources (sources=[...], "
-              "repeated assignments, re-opened scopes, commented-out assignments), by a correspondence run of the whole-fetch "
-              "model; the oracle evaluates the clauses on the implementation: every matching source is subject to the error "
-              "clause, the last active one decides the selection.")
-LEVEL_NOTE = ("Alternatives equal up to case (finding D19) are outside the theorems' hypothesis and visited in their own stream. "
-              "str.lower is modelled as ASCII lower-casing (alternatives are ASCII).")
-TECHNIQUE = "Lean 4 theorems on the choice fetch/extract model + differential correspondence + clause-by-clause oracle"
+LEVEL_TEXT = "Lean theorems about the choice model (choice_converters.fetch / from_words), for all alternative lists distinct up to case and all source word lists: the result lists exactly the master's alternatives in order with their quoting (choice_alts_preserved, _shape), the starred set is the requested set under the three spellings, an unknown selected name raises Sorry carrying all alternatives (choice_unknown_sorry), extraction returns at most one name (single) and never none/empty when .optional=False (single_at_most_one, mandatory_never_empty). Tied to /repo by a correspondence run of fetch+extract on one choice definition and on several sources per parameter (lists, repeated assignments, re-opened scopes; whole-fetch model); the oracle evaluates the clauses on the implementation: every matching source is under the error clause, the last active one decides."
+LEVEL_NOTE = "Alternatives equal up to case (finding D19) are outside the theorems' hypothesis and visited in their own stream. str.lower is ASCII lower-casing in the model."
+TECHNIQUE = 'Lean 4 theorems on the choice fetch/extract model + differential correspondence (single and multi-source) + clause-by-clause oracle'
 RULE = ("alternative lists (2..5 names, any default stars, quoted or not) x single/multi x optional {None,True,False} x source "
         "spellings (starred subsets, bare single names in any case, a+b forms, None, Auto, unknown names starred or not, quoted "
         "names, repeated names) x 1..4 matching sources per parameter in four layouts; non-trivial = the source selects or "
